@@ -32,6 +32,15 @@ pub fn sample_batches() -> Vec<Batch> {
             ColRep::Str((0..rows as i64).map(|i| format!("s{}", (b * 4 + i) % 3)).collect()),
         );
         cols.insert("g".to_string(), ColRep::Dense((0..rows as i64).map(|i| crate::model::FBits::of((b + i) as f64)).collect()));
+        cols.insert(
+            "ns".to_string(),
+            ColRep::Mixed(
+                (0..rows as i64)
+                    .map(|i| if (b * 4 + i) % 4 == 1 { Cell::Null } else { Cell::Str(format!("{}", ["", "a", "b"][((b * 4 + i) % 3) as usize])) })
+                    .collect(),
+            ),
+        );
+        cols.insert("nid".to_string(), ColRep::SparseI64((0..rows as u64).map(|i| (i, b * 4 + i as i64)).collect()));
         if b == 1 {
             cols.insert("late".to_string(), ColRep::I64(vec![7; rows]));
         }
@@ -43,6 +52,31 @@ pub fn sample_batches() -> Vec<Batch> {
 pub fn run(args: &[String]) {
     crate::db::set_quiet(false);
     crate::db::set_call_deadline(std::time::Duration::from_secs(5));
+    if args.first().map(|s| s.as_str()) == Some("case") {
+        // probe case <replay.json> [sql...]: realise the table+layout of a query-property replay file
+        let v: serde_json::Value = serde_json::from_str(&std::fs::read_to_string(&args[1]).unwrap()).unwrap();
+        let t: crate::gen::LogicalTable = serde_json::from_value(v["case"]["table"].clone()).unwrap();
+        let layout: crate::gen::Layout = serde_json::from_value(v["case"]["layout"].clone()).unwrap();
+        let (db, _d) = crate::qgen::realise(&t, &layout, "t").expect("realise");
+        let mut sqls: Vec<String> = args[2..].to_vec();
+        if sqls.is_empty() {
+            if let Some(qs) = v["case"]["queries"].as_array() {
+                for q in qs {
+                    let q: crate::eval::Query = serde_json::from_value(q["q"].clone()).unwrap();
+                    sqls.push(q.sql());
+                }
+            }
+        }
+        for sql in sqls {
+            println!("> {}", sql);
+            match db.query(&sql) {
+                Ok(Ok(o)) => println!("  {:?}", o),
+                Ok(Err(e)) => println!("  ERR {}", e.short()),
+                Err(f) => println!("  FAULT {}", f.short()),
+            }
+        }
+        return;
+    }
     if args.is_empty() {
         eprintln!("probe q [--disk] [--flush] <sql>...");
         return;
